@@ -34,6 +34,13 @@ def session(rng, kind):
                   {"op": "put", "k": 1, "v": u.next(), "pad": 10}, {"op": "put", "k": 0, "v": u.next(), "pad": 4800000}, {"op": "put", "k": 2, "v": u.next(), "pad": 0},
                   {"op": "close"}]
         return steps
+    if kind == "manytables":     # a compaction of 170 tables: its success flag lists 170 paths - a record above the flag writer's 4 KiB buffer, two write(2) calls
+        steps = [dbgen.open_step(1000, 1 << 30, 1000, mem=1 << 30, bg=False)]
+        for i in range(170):
+            steps += [{"op": "put", "k": i % 8, "v": u.next(), "pad": 0}] + ([{"op": "del", "k": (i + 3) % 8}] if i % 9 == 4 else []) + [{"op": "rotate"}]
+        steps += [{"op": "barrier"}, {"op": "close"}, dbgen.open_step(1, 1 << 30, 1000, mem=1 << 30, bg=False), {"op": "compact"}, {"op": "put", "k": 1, "v": u.next(), "pad": 0},
+                  {"op": "close"}]
+        return steps
     if kind == "delheavy":       # runs of deletes of distinct keys: tombstones alone take the memstore over its limit (the next Put rotates a store that was
         # already full when the deletes before it were applied) - every delete must stay in the generation its log record is in
         steps = [dbgen.open_step(rng.choice([0, 1, 2]), 1 << 30, 1000, mem=rng.choice([8, 12, 18]), bg=rng.random() < 0.5, interval_us=1500)]
@@ -96,7 +103,21 @@ def run_sessions(o, binary, sessions, mode, tag):
         if mode == "async":
             # byte-level cuts of the newest WAL file (reachable with a buffered log); not protocol steps, so they are appended
             sess["cuts"] = crash.wal_cut_points(pts, sess["root"])
+        allpts = pts
+        if name.startswith("manytables"):
+            # hundreds of tables: the images are big, so only the crash points of the compaction itself (merged table, success flag - a record of
+            # more than one write(2) with this many inputs -, first removals, rename) and a sample of the others are recovered
+            nrm = 0
+            keep = []
+            for i, p in enumerate(pts):
+                d = p.desc
+                rm = d.startswith(("unlink sstable_0", "rmdir sstable_0"))
+                nrm += 1 if rm else 0
+                if "sstable_compaction" in d or "compaction_successful" in d or (rm and nrm <= 12) or i % 150 == 0 or i >= len(pts) - 3:
+                    keep.append(p)
+            pts = keep
         res = crashrun.recover_points(binary, sess, pts + sess.get("cuts", []))
+        sess["allpts"] = allpts
         return sess, pts + sess.get("cuts", []), res
 
     recs = common.parallel(rec, sessions, nthreads=4)
@@ -108,7 +129,7 @@ def run_sessions(o, binary, sessions, mode, tag):
     descs = collections.Counter()
     for ci, ((name, steps), (sess, pts, res)) in enumerate(zip(sessions, recs)):
         lines += crashrun.judge_lines(ci, mode, sess["events"], pts, res)
-        plines += crashrun.proto_lines(ci, pts, sess["events"])
+        plines += crashrun.proto_lines(ci, sess.get("allpts", pts), sess["events"])
         ilines += crashrun.image_lines(ci, pts, res)
         npoints += len(pts)
         for p in pts:
@@ -215,6 +236,7 @@ def run(tier, pid=PID, mode="sync"):
     sessions = [("%s-%d" % (kinds[i % 4], i), session(rng, kinds[i % 4])) for i in range(n)]
     sessions.append(("hugeput-%d" % n, session(rng, "hugeput")))
     sessions += [("delheavy-%d" % (n + 1 + i), session(rng, "delheavy")) for i in range(6 if thorough else 2)]
+    sessions.append(("manytables-%d" % (n + 9), session(rng, "manytables")))
     npoints, ndistinct, descs, nok, nbad = run_sessions(o, binary, sessions, mode, pid)
     hugewal(o, binary, mode, pid)
     log("[%s] %d sessions, %d crash points (%d distinct images), %d recover into the allowed set, %d rejected" % (pid, n, npoints, ndistinct, nok, nbad))
